@@ -214,6 +214,9 @@ class CirqSimulator(Backend):
             translated_circuit = translate_c(source_circuit, "cirq", output_options={"noise_model": self._noise_model,
                                                                                      "save_measurements": True})
             qubit_list = self.cirq.LineQubit.range(source_circuit.width)
+            # cirq's run() always starts from |0...0>: prepare the requested initial state explicitly
+            if initial_statevector is not None:
+                translated_circuit.insert(0, self.cirq.StatePreparationChannel(cirq_initial_statevector)(*qubit_list))
             for i, qubit in enumerate(qubit_list):
                 translated_circuit.append(self.cirq.measure(qubit, key=str(i + n_meas)))
             job_sim = cirq_simulator.run(translated_circuit, repetitions=self.n_shots)
